@@ -408,3 +408,41 @@ func H_O5_OracleSwap_ExactOut() {
 	PA, PU := pa.MulInt(e18).TruncateInt(), pu.MulInt(e18).TruncateInt()
 	vrf.Assert(in.Amount.Mul(e18).AddRaw(2).Mul(PA).GTE(out.Mul(e18).Mul(PU)), "O5 exact-out: value charged >= value paid out (the charge is rounded up to a base unit)")
 }
+
+// Fractional exponents with a reserve ratio outside [0.5, 2) take Pow's exp / ln series, whose loops depend on their
+// input and are run here on concrete reserve ratios that are exact powers of two (the series' range reduction), with
+// only the fee symbolic: the request is either refused or charged at least the Bernoulli bound of the weighted formula.
+//
+//vrf:cover priced-or-refused
+//vrf:bound weights 4:1, reserves 8,000,000 : 4,000,000, exact-out of 3,000,000 (reserve ratio exactly 4) and of 3,500,000 (exactly 8); fee symbolic in [0, 2%]; a concrete-point obligation on the real series code (no contract)
+//vrf:max-steps 400000000
+//vrf:assert-ms 120000
+func H_O2_CalcInGivenOut_4to1_PowersOfTwo() {
+	fee := feeIn2pct()
+	bin, bout := sdkmath.NewInt(8_000_000), sdkmath.NewInt(4_000_000)
+	out := sdkmath.NewInt(3_000_000)
+	if vrf.Bool("ratio8") {
+		out = sdkmath.NewInt(3_500_000)
+	}
+	pool := mkPool(bin, bout, 4, 1, fee)
+	var ctx sdk.Context
+	var in sdk.Coin
+	var err error
+	refused := true
+	func() {
+		// the series code panics when it does not converge; the keeper entry points recover and fail the transaction
+		defer func() { recover() }()
+		in, _, err = pool.CalcInAmtGivenOut(ctx, nil, &pool, sdk.Coins{sdk.Coin{Denom: "uusdc", Amount: out}}, "uatom", fee, noAcc{})
+		refused = false
+	}()
+	vrf.Cover("priced-or-refused")
+	if refused || err != nil {
+		return
+	}
+	// in*(1-fee) = Bin*((Bout/(Bout-out))^(1/4) - 1) >= Bin*(r-1)/(4r) with r = Bout/(Bout-out) (Bernoulli, exponent < 1:
+	// (1+x)^(1/4) >= 1 + x/(4(1+x))), i.e. (in+1)*(1-fee)*4*Bout >= Bin*out
+	f1 := sdkmath.LegacyOneDec().Sub(fee)
+	lhs := f1.MulInt(in.Amount.AddRaw(1)).MulInt(bout).MulInt64(4)
+	rhs := sdkmath.LegacyNewDecFromInt(bin).MulInt(out)
+	vrf.Assert(lhs.GTE(rhs), "O2w: charged input at a power-of-two reserve ratio >= the Bernoulli bound of the weighted formula")
+}
